@@ -10,14 +10,30 @@ from . import fshort
 # ------------------------------------------------------------------------------------------------
 # build_remover: evaluator registry wiring (C03.R5, C05.R4, C06, C18)
 
+def _map_from_pairs(I, a, n, env):
+    """HashMap::from([(k, v), ..]) inserts the pairs in order (a later duplicate key wins, as with insert)."""
+    v = a[0]
+    if (n.get("ty") or "").startswith("std::collections::HashMap<") and isinstance(v, A.VecV) and v.base is None \
+            and all(isinstance(x, A.Tuple) and len(x.items) == 2 for x in v.items):
+        m = A.Sym("std::collections::HashMap::from([..])", n.get("ty"))
+        for x in v.items:
+            I.effects.append(("call", "std::collections::HashMap::insert", [m, x.items[0], x.items[1]], n))
+        return m
+    return A.Sym("%s::from(%s)" % (T.strip_generics(n.get("ty") or "?"), A.show(v)), n.get("ty"))
+
+
 def explore_build_remover(ctx):
     if hasattr(ctx, "_build_remover"):
         return ctx._build_remover
     P = ctx.lib
     b = P.fn("chiritori::build_remover")
-    I = A.Interp(P)
+    # private helpers of chiritori.rs that build_remover is split into are interpreted inline
+    src_file = (b["tree"].get("sp") or [None])[0]
+    helpers = [P.bodies[c] for c, _ in _reach(P, b) if (P.bodies[c]["tree"].get("sp") or [0])[0] == src_file and P.bodies[c].get("kind") == "Fn"]
+    I = A.Interp(P, inline=[h["def_path"] for h in helpers], models={"std::convert::From::from": _map_from_pairs})
     outs = I.explore(lambda J: J.call_fn_body(b, [A.Sym("config"), A.Sym("content")]))
     ctx._build_remover = (b, outs)
+    ctx._build_remover_bodies = [b] + helpers
     return ctx._build_remover
 
 
@@ -79,6 +95,62 @@ def _clap_parse(I, a, n, env):
     return A.Sym("args", n.get("ty"))
 
 
+def _spread(v):
+    if isinstance(v, A.VecV):
+        out = list(v.items)
+        if v.base is not None:
+            out.insert(0, A.Variant("..spread", [v.base]))
+        return out
+    return [A.Variant("..spread", [v])]
+
+
+def _m_chain(I, a, n, env):
+    return A.VecV(_spread(a[0]) + _spread(a[1]))
+
+
+def _m_same(I, a, n, env):
+    return a[0]
+
+
+def _m_extend(I, a, n, env):
+    v = a[0]
+    if isinstance(v, A.VecV):
+        v.items.extend(_spread(a[1]))
+        return A.UNIT
+    raise A.Cannot("extend of a collection that was not built on this path")
+
+
+# in `main` a collection of strings is followed as the multiset of its sources (order and container type do not matter to
+# a HashSet of target names): a.into_iter().chain(b).collect() == { ..a, ..b } == collect(a) then extend(b)
+COLLECTION_MODELS = {
+    "std::iter::IntoIterator::into_iter": _m_same, "std::iter::Iterator::chain": _m_chain,
+    "std::iter::Iterator::collect": lambda I, a, n, env: A.VecV(_spread(a[0])),
+    "std::iter::Extend::extend": _m_extend,
+}
+
+
+def collection_sources(v):
+    """The set of source terms of a collection value built in main (see COLLECTION_MODELS), or None if it is opaque."""
+    if isinstance(v, A.VecV):
+        out = set()
+        for x in _spread(v):
+            if isinstance(x, A.Variant) and x.name == "..spread":
+                inner = x.args[0]
+                if isinstance(inner, A.VecV):
+                    sub = collection_sources(inner)
+                    if sub is None:
+                        return None
+                    out |= sub
+                else:
+                    out.add(A.show(inner))
+            else:
+                out.add("item:" + A.show(x))
+        return out
+    if isinstance(v, A.Sym):
+        return {A.show(v)}
+    return None
+
+
 def _reach(P, b, seen=None):
     """(def path, call node) of the crate-local functions reachable from b."""
     seen = seen if seen is not None else {}
@@ -98,7 +170,7 @@ def explore_main(ctx):
     # config-file loader stays an opaque source term ("the lines of the file")
     inline = [x["def_path"] for x in P.user_bodies() if x is not b and fshort(x) != "load_removal_marker_target_names"
               and x["def_path"] in {c_ for c_, _ in _reach(P, b)}]
-    I = A.Interp(P, inline=inline, assume_ok=True, models={"clap::Parser::parse": _clap_parse})
+    I = A.Interp(P, inline=inline, assume_ok=True, models=dict(COLLECTION_MODELS, **{"clap::Parser::parse": _clap_parse}))
     outs = I.explore(lambda J: J.call_fn_body(b, []))
     ctx._main = (b, outs)
     return ctx._main
@@ -166,7 +238,9 @@ def cli_config_wiring(ctx, res, rule, only=None):
     # the parse target type of --time-limited-current must be an instant (DateTime<Local>), not a naive time
     if not only or "current" in only:
         n += 1
-        parses = [x for x in T.nodes(b["tree"], "mcall") if x["name"] == "parse" and "time_limited_current" in T.render(x["recv"])]
+        # (the value wiring above shows that the parsed string is args.time_limited_current; here: what it is parsed into -
+        # the one chrono parse in main or the helpers it is split into)
+        parses = [x for bd in ctx.bin.user_bodies() for x in T.nodes(bd["tree"], "mcall") if x["name"] == "parse" and "chrono::" in (x.get("ty") or "")]
         if len(parses) == 1 and "chrono::DateTime<chrono::Local>" in parses[0]["ty"]:
             res.holds(rule, fn, "cli-wiring:current-type", parses[0]["ty"])
         else:
@@ -579,7 +653,7 @@ def strategy_selection(ctx, res, rule):
     items = news[0][2][1].items
     node = news[0][3]
     # types of the list entries, from the typed tree
-    arr = [x for x in T.nodes(bb["tree"], "array") if len(x["es"]) == len(items)
+    arr = [x for bd in getattr(ctx, "_build_remover_bodies", [bb]) for x in T.nodes(bd["tree"], "array") if len(x["es"]) == len(items)
            and all(T.peel(t).get("k") == "tuple" for t in x["es"]) and "MarkerAvailability" in x.get("ty", "")]
     if len(arr) != 1:
         res.cannot(rule, fnb, "strategy-list", "strategy list literal not found in the tree", locb)
